@@ -3,7 +3,7 @@
    Models: C01/Model.v (vi_run, vi_run_g, pe_run, pe_run_g follow ValueIteration.hpp,
    PolicyEvaluation.hpp, MDP/Utils.hpp); spec: Base/Mdp.v (T_op, dp, T_pi, dp_pi, residual_le). *)
 From Coq Require Import List Arith QArith.
-From AIT Require Import Base.Qx Base.Mdp C01.Model C01.Spec C01.Proofs C01.ProofsVI C01.ProofsRepr C01.ProofsSpec C01.ProofsLP C01.ProofsPI C01.ProofsSparse.
+From AIT Require Import Base.Qx Base.Mdp C01.Model C01.Spec C01.Proofs C01.ProofsVI C01.ProofsRepr C01.ProofsSpec C01.ProofsLP C01.ProofsPI C01.ProofsSparse C01.ProofsExt.
 Import ListNotations.
 Local Open Scope Q_scope.
 
@@ -179,6 +179,71 @@ Theorem sparse_independent_partial : forall g h tol v0 pol, no_small_entries g -
 Proof. exact sparse_independent_lemma. Qed.
 Print Assumptions sparse_independent_partial.
 
+(* ---- 6 (full). PolicyIteration: when the outer loop returns (tolerance in use, at least one sweep per
+   evaluation), the returned Q-table is that of the last evaluation (variation var) of a policy matrix
+   pol that greedification w.r.t. Q leaves unchanged, and — provided the rows of pol are distributions —
+   the greedy values max_a Q(s,.) (= bellmanOperator(Q)) have Bellman residual at most
+   gamma * (var + kappa), kappa = 2*(epsS + Qb*epsG) + A*2*epsS*Qb being the slack of the
+   checkEqualGeneral ties (Qb bounds |Q|).  [wf_policy pol] is a premise because QGreedyPolicyWrapper
+   counts ties against the running maximum but assigns weights against the final one (a row need not sum
+   to one when checkEqualGeneral is not transitive on that row; exact or separated ties make it so). *)
+Theorem pi_fixpoint : forall m h tol fuel n q Qb, wf_mdp m -> epsS < tol -> (0 < h)%nat -> 0 <= Qb ->
+  pi_run m h tol fuel = Some (n, q) ->
+  (forall s a, (s < nS m)%nat -> (a < nA m)%nat -> - Qb <= nthq (row q s) a /\ nthq (row q s) a <= Qb) ->
+  exists pol vp var v,
+    pe_run m pol h tol vp = (var, v, q) /\ 0 <= var /\
+    matrices_differ pol (greedy_matrix q) = false /\
+    (wf_policy m pol -> residual_le m (fst (bellman q)) (gam m * (var + kappa m Qb))).
+Proof. exact pi_fixpoint_lemma. Qed.
+Print Assumptions pi_fixpoint.
+
+(* … hence within ((gamma*var_vi) + e_pi)/(1-gamma) of what value iteration returns *)
+Theorem pi_vi_close : forall m h tol v0 vpi e_pi, wf_mdp m -> epsS < tol -> (0 < h)%nat ->
+  length vpi = nS m -> residual_le m vpi e_pi ->
+  let '(var, v, acts, q) := vi_run m h tol v0 in
+  close ((gam m * var + e_pi) / (1 - gam m)) v vpi.
+Proof. exact pi_vi_close_lemma. Qed.
+Print Assumptions pi_vi_close.
+
+(* pi_terminates (partial): a returned answer does not depend on the fuel. Not proved: that some fuel
+   suffices (termination of the goto loop). *)
+Theorem pi_terminates_partial : forall m h tol fuel k r,
+  pi_run m h tol fuel = Some r -> pi_run m h tol (fuel + k) = Some r.
+Proof. exact pi_fuel_independent_lemma. Qed.
+Print Assumptions pi_terminates_partial.
+
+(* ---- 7 (sparse, error term). Entries in the dropped band: the SparseModel constructor accepts the table
+   only if every stored row still sums to one within 1e-6 (sparse_accepts), so each row loses at most epsS
+   of mass; then the h-step values of the sparse and of the dense model differ by at most
+   (epsS + rmax*epsS + gamma*B*epsS)/(1-gamma), |r| <= rmax, |V_sparse,k| <= B for k < h. *)
+Theorem sparse_error_term : forall g rmax B h, wf_mdp (dense_of_g g) -> sparse_accepts g = true ->
+  rewards_bounded g rmax -> 0 <= B -> 0 <= rmax ->
+  (forall k, (k < h)%nat -> bounded B (dp (sparse_of_g g) k)) ->
+  let '(_, vs, _, _) := vi_run (sparse_of_g g) h 0 (repeat 0 (gS g)) in
+  let '(_, vd, _, _) := vi_run (dense_of_g g) h 0 (repeat 0 (gS g)) in
+  close (sparse_eta g epsS rmax B / (1 - ggam g)) vs vd.
+Proof. exact sparse_error_term_lemma. Qed.
+Print Assumptions sparse_error_term.
+
+(* the same for an arbitrary per-row mass loss delta (without the constructor's validation delta <= S*epsS) *)
+Theorem sparse_dp_close : forall g delta rmax B h, wf_mdp (dense_of_g g) ->
+  row_loss_le g delta -> rewards_bounded g rmax -> 0 <= delta -> 0 <= B -> 0 <= rmax ->
+  (forall k, (k < h)%nat -> bounded B (dp (sparse_of_g g) k)) ->
+  close (sparse_eta g delta rmax B / (1 - ggam g)) (dp (sparse_of_g g) h) (dp (dense_of_g g) h).
+Proof. exact sparse_dp_close_lemma. Qed.
+Print Assumptions sparse_dp_close.
+
+(* ---- 7 (learned / any representation). The answers depend only on the MDP: models that agree entrywise
+   (==) give equal results. With C07's ml_model_is_empirical / unvisited_default (tables of
+   MaximumLikelihoodModel == empirical frequencies, mean rewards, self-loops) this is "value iteration on
+   the learned model = value iteration on the empirical MDP". *)
+Theorem model_ext_independent : forall g1 g2 h tol v0 pol, gmodel_eq g1 g2 ->
+  st_equiv (vi_run_g g1 h tol v0) (vi_run_g g2 h tol v0) /\
+  pst_equiv (pe_run_g g1 pol h tol v0) (pe_run_g g2 pol h tol v0) /\
+  st_equiv (vi_run (dense_of_g g1) h tol v0) (vi_run (dense_of_g g2) h tol v0).
+Proof. exact model_ext_independent_lemma. Qed.
+Print Assumptions model_ext_independent.
+
 (* ---- O. the oracle's checkers are sound w.r.t. the spec *)
 Theorem check_mdp_solution_sound : forall m v q acts e d,
   check_mdp_solution m v q acts e d = true -> solution_spec m v q acts e d.
@@ -274,4 +339,35 @@ Proof.
     assert (Ea : a = 0%nat \/ a = 1%nat) by (destruct a as [|[|a]]; auto; exfalso; apply (Nat.nlt_0_r a); do 2 apply Nat.succ_lt_mono; exact Ha).
     destruct Es as [-> | ->], Ea as [-> | ->]; unfold separated0; vm_compute;
       ((left; reflexivity) || (right; reflexivity)).
+Qed.
+
+(* a model with an entry in the dropped band that SparseModel accepts: hypotheses of sparse_error_term *)
+Definition ex_tiny : gmodel :=
+  g_of_tables 2 1 [ [[1 # 2097152; 2097151 # 2097152]] ; [[0; 1]] ] [ [[3; 3]] ; [[-2 # 1; -2 # 1]] ] (1#2).
+
+Example ex_sparse_tiny : wf_mdp (dense_of_g ex_tiny) /\ sparse_accepts ex_tiny = true /\
+  rewards_bounded ex_tiny 3 /\ (forall k, (k < 1)%nat -> bounded 0 (dp (sparse_of_g ex_tiny) k)) /\
+  ~ no_small_entries ex_tiny.
+Proof.
+  split; [apply wf_mdpb_sound; vm_compute; reflexivity|]. split; [vm_compute; reflexivity|]. split; [| split].
+  - intros s a s1 Hs Ha Hs1. change (gS ex_tiny) with 2%nat in *. change (gA ex_tiny) with 1%nat in *.
+    assert (Es : s = 0%nat \/ s = 1%nat) by (destruct s as [|[|s]]; auto; exfalso; apply (Nat.nlt_0_r s); do 2 apply Nat.succ_lt_mono; exact Hs).
+    assert (Ea : a = 0%nat) by (destruct a; auto; exfalso; apply (Nat.nlt_0_r a); apply Nat.succ_lt_mono; exact Ha).
+    assert (Es1 : s1 = 0%nat \/ s1 = 1%nat) by (destruct s1 as [|[|s1]]; auto; exfalso; apply (Nat.nlt_0_r s1); do 2 apply Nat.succ_lt_mono; exact Hs1).
+    subst a. destruct Es as [-> | ->], Es1 as [-> | ->]; vm_compute; split; discriminate.
+  - intros k Hk. assert (k = 0%nat) by (destruct k; auto; exfalso; apply (Nat.nlt_0_r k); apply Nat.succ_lt_mono; exact Hk). subst k.
+    intros i. destruct i as [|[|[|i]]]; vm_compute; split; discriminate.
+  - intros [HP _]. specialize (HP 0%nat 0%nat 0%nat). change (gS ex_tiny) with 2%nat in HP. change (gA ex_tiny) with 1%nat in HP.
+    destruct (HP (Nat.lt_0_succ 1) (Nat.lt_0_succ 0) (Nat.lt_0_succ 1)) as [H|H]; vm_compute in H; discriminate.
+Qed.
+
+(* two different but entrywise equal query models *)
+Example ex_gmodel_eq : gmodel_eq ex_g (g_of_tables 2 2 [ [[2#4; 1#2]; [1; 0]] ; [[0; 1]; [1#4; 6#8]] ] [ [[1; 3]; [0; 5]] ; [[7; -1#1]; [4#2; 2]] ] (3#4)).
+Proof.
+  split; [reflexivity|]. split; [reflexivity|]. split; [reflexivity|].
+  intros s a s1 Hs Ha Hs1. change (gS ex_g) with 2%nat in *. change (gA ex_g) with 2%nat in *.
+  assert (Es : s = 0%nat \/ s = 1%nat) by (destruct s as [|[|s]]; auto; exfalso; apply (Nat.nlt_0_r s); do 2 apply Nat.succ_lt_mono; exact Hs).
+  assert (Ea : a = 0%nat \/ a = 1%nat) by (destruct a as [|[|a]]; auto; exfalso; apply (Nat.nlt_0_r a); do 2 apply Nat.succ_lt_mono; exact Ha).
+  assert (Es1 : s1 = 0%nat \/ s1 = 1%nat) by (destruct s1 as [|[|s1]]; auto; exfalso; apply (Nat.nlt_0_r s1); do 2 apply Nat.succ_lt_mono; exact Hs1).
+  destruct Es as [-> | ->], Ea as [-> | ->], Es1 as [-> | ->]; split; vm_compute; reflexivity.
 Qed.
